@@ -54,6 +54,8 @@ structure Disk where
   lastSeq : Int
   txIdx : Map Nat
   roots : Nat → Bool
+  /-- configuration the node runs with (`isRecordBlockSequence`); no write changes it -/
+  recSeq : Bool := false
 
 def setRoot (r : Nat → Bool) (k : Nat) (v : Bool) : Nat → Bool := fun x => if x = k then v else r x
 
@@ -82,7 +84,7 @@ def applyAll (d : Disk) (ws : List Write) : Disk := ws.foldl apply d
 /-- the durable part of an in-memory node state, with the given store content. -/
 def disk (s : State) (roots : Nat → Bool) : Disk :=
   { stored := s.stored, tds := s.tds, h2h := s.h2h, last := s.last, seqTab := s.seqTab,
-    hashSeq := s.hashSeq, lastSeq := s.lastSeq, txIdx := s.txIdx, roots := roots }
+    hashSeq := s.hashSeq, lastSeq := s.lastSeq, txIdx := s.txIdx, roots := roots, recSeq := s.recSeq }
 
 abbrev Trace := List (Write × State)
 
